@@ -21,7 +21,7 @@ RULE = ("(A) after SECS-I blocks were coded in the same process: random E37 head
         "partitions of a 3-frame stream, header-straddling and random cuts; distinct by (stream bytes, partition); "
         "non-trivial when the partition cuts inside a frame or puts several frames in one segment; (C) streams of 1-6 data "
         "frames whose lengths straddle the TCP receiver's read size (1023/1024/1025, multiples of 1024, 64 KiB) written to a "
-        "real loopback socket in one write / per frame / in 1024-byte chunks / at random cuts, with and without pauses; (D) single frames arriving in two segments microseconds apart with nothing after them, under seeded yield injection on the protocol files (hand-over between receiving and framing thread); frames that repeat the header of the frame before them (system bytes included); frames cut in two after quiet periods longer than a short T8")
+        "real loopback socket in one write / per frame / in 1024-byte chunks / at random cuts, with and without pauses; (D) single frames arriving in two segments microseconds apart with nothing after them, under seeded yield injection on the protocol files (hand-over between receiving and framing thread); frames that repeat the header of the frame before them (system bytes included); frames cut in two after quiet periods longer than a short T8; whole frames back to back behind such a frame; (F) streams on a connection that follows one which ended inside a frame (in the length field, the header, the body; up to 70 kB announced)")
 ASSUMPTIONS = ["lib/wire.py implements the E37 frame layout", "the in-memory connection delivers segments exactly as "
                "TcpConnection's receiver thread would (one on_data call per segment, same thread)",
                "data frames use catalogued header-only functions so that body content is irrelevant to decoding"]
@@ -35,7 +35,8 @@ TIMEOUT = {"quick": 300, "thorough": 3000}
 FLOORS = {"oracle.frame_codec": 2000, "oracle.partition": 300, "cut.in_length": 20, "cut.in_header": 20, "cut.in_body": 20,
           "partition.coalesced": 20, "enumerated.two_cut": 1000, "oracle.socket_stream": 100,
           "socket.frame_length_multiple_of_receiver_read_size": 30,
-          "oracle.frames_after_a_pause_longer_than_T8": 16, "stream.frames_repeating_the_previous_header": 200}
+          "oracle.frames_after_a_pause_longer_than_T8": 16, "stream.frames_repeating_the_previous_header": 200,
+          "oracle.new_connection_after_unfinished_frame": 50, "oracle.back_to_back_frames": 1000}
 
 HEADER_ONLY = None
 
@@ -311,9 +312,22 @@ def _part_d(ctx, n):
             if pause:
                 time.sleep(pause)
             sess.rig.pipe.feed(frame[cut:])
+            # every other time a second, complete frame follows at once: the receiving thread appends it while the framing
+            # thread is taking the first one out of the buffer
+            follow = []
+            if i % 2 == 1:
+                for _ in range(rng.choice([1, 1, 2, 3])):
+                    s2 = next(sess.sysgen)
+                    follow.append(s2)
+                    st2, fn2 = rng.choice(ho)
+                    pause2 = rng.choice([0.0, 0.0, 0.00002, 0.0001])
+                    if pause2:
+                        time.sleep(pause2)
+                    sess.rig.pipe.feed(wire.hsms_data(st2, fn2, False, s2, rng.randbytes(rng.choice([0, 1, 20, 200]))))
+                ctx.count("oracle.back_to_back_frames", len(follow))
 
             def done():
-                return len(sess.rig.delivered) > n0
+                return len(sess.rig.delivered) > n0 + len(follow)
             ok = sess.rig.wait(done, timeout=3.0, min_idle=0.3)
             sig, yields, _ = inj.end()
             sigs.add(sig)
@@ -326,8 +340,15 @@ def _part_d(ctx, n):
                 sess = Session(ctx)
                 continue
             got = sess.rig.delivered[n0:]
-            if len(got) != 1 or got[0]["system"] != system:
-                ctx.violation("delivery-differs-from-sent", {"partition": "two segments", "delivered": [hex(m["system"]) for m in got], "sent": hex(system)})
+            if [m["system"] for m in got] != [system] + follow:
+                if follow:
+                    sess.rig.confirm_absent(done)
+                    got = sess.rig.delivered[n0:]
+                if [m["system"] for m in got] != [system] + follow:
+                    ctx.violation("delivery-differs-from-sent", {"partition": "two segments" + (", then whole frames back to back" if follow else ""),
+                                                                  "delivered": [hex(m["system"]) for m in got], "sent": [hex(x) for x in [system] + follow]})
+                    sess.rig.close()
+                    sess = Session(ctx)
         ctx.count("handover.distinct_schedule_signatures", len(sigs))
     finally:
         inj.uninstall()
@@ -491,6 +512,60 @@ def _part_e(ctx, rounds):
         rig.close()
 
 
+def _part_f(ctx, rounds):
+    """Segmentation on a connection that follows one which ended inside a frame: whatever the receiver remembered of the
+    unfinished frame (bytes, announced length) must not shape the framing of the new byte stream."""
+    rng = ctx.rng
+    sess = Session(ctx)
+    ho = _header_only()
+    for r in range(rounds):
+        if not sess.ok:
+            ctx.unsure("part F: could not establish a selected session")
+            return
+        st, fn = rng.choice(ho)
+        body = rng.randbytes(rng.choice([0, 10, 300, 3000, 70000]))
+        frame = wire.hsms_data(st, fn, False, next(sess.sysgen), body)
+        cut = rng.choice([1, 2, 3, 4, 5, 9, 13, 14, len(frame) - 1, rng.randint(1, len(frame) - 1)])
+        cut = max(1, min(cut, len(frame) - 1))
+        prefix = frame[:cut]
+        # optionally a few complete frames before the unfinished one, and the prefix itself in several segments
+        lead = _random_spec(rng) if rng.random() < 0.5 else []
+        if lead:
+            data, em, er, bounds = sess.make_stream(lead)
+            if not sess.deliver(data, gen.partitions(rng, len(data), "random"), em, er, "random", bounds):
+                sess = Session(ctx)
+                continue
+        for seg in ([prefix] if rng.random() < 0.5 else [prefix[i:i + 1021] for i in range(0, len(prefix), 1021)]):
+            sess.rig.pipe.feed(seg)
+        sess.rig.quiesce(1.0)
+        sess.rig.pipe.peer_close()
+        if not sess.rig.pipe.wait_closed(5.0):
+            ctx.unsure("part F: the close sequence did not finish (C09 judges that)")
+            sess.rig.close()
+            sess = Session(ctx)
+            continue
+        ctx.count("oracle.new_connection_after_unfinished_frame")
+        ctx.count("unfinished.in_length" if cut < 4 else "unfinished.in_header" if cut < 14 else "unfinished.in_body")
+        if not sess.rig.connect_and_select(system=next(sess.sysgen)):
+            ctx.violation("delivery-differs-from-sent:select-not-answered-on-the-connection-after-an-unfinished-frame",
+                          {"unfinished_frame_length": len(frame), "bytes_received_of_it": cut, "state": sess.rig.state,
+                           "sent_on_new_connection": [f.describe() for f in sess.rig.pipe.frames()][:4]})
+            sess.rig.close()
+            sess = Session(ctx)
+            continue
+        sess.seen_delivered = len(sess.rig.delivered)
+        sess.seen_frames = len(sess.rig.pipe.frames())
+        spec = _random_spec(rng)
+        data, em, er, bounds = sess.make_stream(spec)
+        kind = rng.choice(["whole", "random", "random", "bytes"] if len(data) < 3000 else ["whole", "random"])
+        segs = gen.partitions(rng, len(data), kind)
+        ctx.case(("F", cut, len(frame), kind, tuple(segs[:30]), len(data)), nontrivial=True)
+        if not sess.deliver(data, segs, em, er, f"after-unfinished-frame({cut}/{len(frame)}):{kind}", bounds):
+            sess.rig.close()
+            sess = Session(ctx)
+    sess.rig.close()
+
+
 def run(ctx):
     from lib import vtime
     vtime.install()   # the protocol's 30 s linktest timer must not fire in the middle of a long session
@@ -498,4 +573,5 @@ def run(ctx):
     _part_b(ctx)
     _part_c(ctx, 25 if ctx.quick else 600)
     _part_d(ctx, 400 if ctx.quick else 20000)
+    _part_f(ctx, 12 if ctx.quick else 400)
     _part_e(ctx, 4 if ctx.quick else 40)     # (last: part A codes SECS-I blocks before anything touches the HSMS codec in this process)
